@@ -197,17 +197,34 @@ def f_repr(eng, s, args, kw):
     return [(sv_str(format_value(eng, s, args[0], None, "r")), s)]
 
 
+def tokens_are_str(eng):
+    """contracts of functions that read lark Tokens as the strs they are (str(t), float(t), int(t)) ask for it with
+    opts={"token_is_str": True}; elsewhere an untyped value is never taken for a Token (the terms stay as they were
+    when the recorded proof hints were made)"""
+    c = getattr(eng, "contract", None)
+    return bool(c is not None and c.opts.get("token_is_str"))
+
+
 def float_parts(eng, x: SV):
     """(ok condition, real value) of float(x)"""
     if x.ty == "str":
         return smt.float_ok(get_s(x.t)), smt.float_of(get_s(x.t)), ValueError
+    if x.ty == "obj:Token":
+        t = smt.TOKTEXT(smt.get_ref(x.t))
+        return smt.float_ok(t), smt.float_of(t), ValueError
     if x.ty == "float":
         return z3.BoolVal(True), get_r(x.t), None
     if x.ty in ("int", "bool"):
         return z3.BoolVal(True), eng.num_real(x), None
     if x.ty is None:
-        ok = z3.Or(z3.And(is_str(x.t), smt.float_ok(get_s(x.t))), is_real(x.t), is_int(x.t), is_bool(x.t))
-        val = z3.If(is_str(x.t), smt.float_of(get_s(x.t)), eng.num_real(x))
+        tok = eng.ty_cond(x, "obj:Token") if tokens_are_str(eng) else z3.BoolVal(False)
+        tt = smt.TOKTEXT(smt.get_ref(x.t))
+        if not tokens_are_str(eng):
+            ok = z3.Or(z3.And(is_str(x.t), smt.float_ok(get_s(x.t))), is_real(x.t), is_int(x.t), is_bool(x.t))
+            val = z3.If(is_str(x.t), smt.float_of(get_s(x.t)), eng.num_real(x))
+            return ok, val, None
+        ok = z3.Or(z3.And(is_str(x.t), smt.float_ok(get_s(x.t))), z3.And(tok, smt.float_ok(tt)), is_real(x.t), is_int(x.t), is_bool(x.t))
+        val = z3.If(is_str(x.t), smt.float_of(get_s(x.t)), z3.If(tok, smt.float_of(tt), eng.num_real(x)))
         return ok, val, None
     return z3.BoolVal(False), z3.RealVal(0), TypeError
 
@@ -222,7 +239,7 @@ def f_float(eng, s, args, kw):
     if bad is not None:
         if x.ty is None:
             # str that is not a number -> ValueError ; other types -> TypeError
-            b1, b2 = eng.branch(bad, is_str(x.t))
+            b1, b2 = eng.branch(bad, z3.Or(is_str(x.t), eng.ty_cond(x, "obj:Token")) if tokens_are_str(eng) else is_str(x.t))
             if b1 is not None:
                 eng.raise_exc(b1, ValueError)
             if b2 is not None:
@@ -236,13 +253,20 @@ def f_int(eng, s, args, kw):
     (x,) = args
     x = eng.as_val(s, x)
     if x.ty is None:
-        ok = z3.Or(z3.And(is_str(x.t), smt.int_ok(get_s(x.t))), is_int(x.t))
-        val = z3.If(is_str(x.t), smt.int_of(get_s(x.t)), get_i(x.t))
+        tok = eng.ty_cond(x, "obj:Token")
+        tt = smt.TOKTEXT(smt.get_ref(x.t))
+        if tokens_are_str(eng):
+            ok = z3.Or(z3.And(is_str(x.t), smt.int_ok(get_s(x.t))), z3.And(tok, smt.int_ok(tt)), is_int(x.t))
+            val = z3.If(is_str(x.t), smt.int_of(get_s(x.t)), z3.If(tok, smt.int_of(tt), get_i(x.t)))
+        else:
+            tok = z3.BoolVal(False)
+            ok = z3.Or(z3.And(is_str(x.t), smt.int_ok(get_s(x.t))), is_int(x.t))
+            val = z3.If(is_str(x.t), smt.int_of(get_s(x.t)), get_i(x.t))
         if eng.spec:
             return [(sv_int(val), s)]
         good, bad = eng.branch(s, ok)
         if bad is not None:
-            b1, b2 = eng.branch(bad, is_str(x.t))
+            b1, b2 = eng.branch(bad, z3.Or(is_str(x.t), tok) if tokens_are_str(eng) else is_str(x.t))
             if b1 is not None:
                 eng.raise_exc(b1, ValueError)
             if b2 is not None:
@@ -250,6 +274,8 @@ def f_int(eng, s, args, kw):
         return [(sv_int(val), good)] if good is not None else []
     if x.ty == "int":
         return [(x, s)]
+    if x.ty == "obj:Token":
+        x = sv_str(smt.TOKTEXT(smt.get_ref(x.t)))
     if x.ty == "str":
         if eng.spec:
             return [(sv_int(smt.int_of(get_s(x.t))), s)]
@@ -357,7 +383,25 @@ def f_sorted(eng, s, args, kw):
         keyterm = lambda t: t
         kty = seq.elem_ty
     else:
-        kv, _ = apply_pure(eng, s, key, [SV(x, seq.elem_ty)])
+        try:
+            kv, _ = apply_pure(eng, s, key, [SV(x, seq.elem_ty)])
+        except Unsupported:
+            # the key is not a total single-path function of an arbitrary value: apply it to the element at an arbitrary
+            # position instead; it must not raise there (else unsupported, as before).  The result is then only known to
+            # be a permutation of the input: no ordering facts are assumed (weaker, sound)
+            from .models import call_value
+            pos = fresh("so_pos", smt.I)
+            sp = s.copy()
+            sp.assume(0 <= pos, pos < n)
+            eng.raised.append([])
+            try:
+                call_value(eng, key, [SV(z3.Select(seq.arr, pos), seq.elem_ty)], {}, sp)
+            finally:
+                raised = eng.raised.pop()
+            for r in raised:
+                if eng.feasible(r.st):
+                    raise Unsupported("sorted key may raise on an element")
+            return [(out, s)]
         kv = eng.as_val(s, kv)
         kty = kv.ty
         keyterm = lambda t: z3.substitute(kv.t, (x, t))
